@@ -441,6 +441,43 @@ func (t *translator) stmts(l []ast.Stmt, acts []int, e renv, k cont) string {
 			return "(if " + c + "\n then " + t.stmts(cc.Body, acts, e, after) + "\n else " + build(i+1) + ")"
 		}
 		return build(0)
+	case *ast.TypeSwitchStmt:
+		// the dynamic type is an input: one boolean atom per clause, named "type T1, T2" after the clause's type list
+		if v.Init != nil {
+			panic(trErr{"type switch with initialiser"})
+		}
+		afterT := t.scoped(func(a []int, in renv) string { return next(a, e.leave(in)) })
+		t.brk = append(t.brk, afterT)
+		defer func() { t.brk = t.brk[:len(t.brk)-1] }()
+		var tclauses []*ast.CaseClause
+		var tdef *ast.CaseClause
+		for _, c := range v.Body.List {
+			cc := c.(*ast.CaseClause)
+			if cc.List == nil {
+				tdef = cc
+			} else {
+				tclauses = append(tclauses, cc)
+			}
+		}
+		var buildT func(i int) string
+		buildT = func(i int) string {
+			if i == len(tclauses) {
+				if tdef != nil {
+					return t.stmts(tdef.Body, acts, e, afterT)
+				}
+				return next(acts, e)
+			}
+			names := []string{}
+			for _, x := range tclauses[i].List {
+				names = append(names, t.text(x))
+			}
+			a, ok := t.atom("type "+strings.Join(names, ", "), e)
+			if !ok || a.Ty != "bool" {
+				panic(trErr{"type switch clause not a boolean atom: type " + strings.Join(names, ", ")})
+			}
+			return "(if " + a.Coq + "\n then " + t.stmts(tclauses[i].Body, acts, e, afterT) + "\n else " + buildT(i+1) + ")"
+		}
+		return buildT(0)
 	case *ast.SelectStmt:
 		// which communication is taken is an input: one boolean atom per clause but the last, named by the text of
 		// its communication statement ("x := <-ch"); the last clause (or default) is taken when none of them is
